@@ -118,11 +118,12 @@ Section Corollaries.
   Proof.
     intros C I H N. destruct (set_child_value_eff orc clock v g sid cid vt x mt a g' C I H) as (_ & _ & O & Q).
     split; [exact O|]. split; [exact Q|].
-    subst N. unfold set_child_commands, unknown_reply.
+    subst N. unfold set_child_commands, unknown_req, unknown_reply.
     destruct (guard_ok clock g sid (Some cid)).
     - destruct (vsleep g sid); [intros y []|]. destruct (vt_int vt); [|intros y []].
       intros y [<-|[]]. reflexivity.
-    - destruct (v_ge20 v); [|intros y []]. intros y [<-|[]]. reflexivity.
+    - destruct (node_id_ok sid); [|intros y []].
+      destruct (v_ge20 v); [|intros y []]. intros y [<-|[]]. reflexivity.
   Qed.
   (* ---- the same at the level of the transport log: one inbound line in each task flavour ---- *)
   Lemma queue_of_send g s k : queue_of (send g s) k = queue_of g k.
@@ -281,19 +282,23 @@ Example ex_reply_table_premises :
   wakes_up V22 (view_of 0 g) (mkMsg 1 0 2 1 2 []) = false /\ g_sensors g <> [].
 Proof. vm_compute. repeat split; try reflexivity. discriminate. Qed.
 
-(* ---- theorem 3 without the side condition on set_child_value's node id is false ---- *)
-(* set_child_value(300, 0, 2, "1") on a 2.2 gateway: node 300 is unknown, so is_sensor asks node
-   "300" for a presentation; the command 300;255;3;0;19; is handed to the transport although no
-   protocol version accepts node id 300 *)
-Theorem emitted_canonical_valid_refuted :
-  exists cf ops l m,
-    cfg_ok cf /\
-    Forall (fun o => match o with SetChild _ _ _ x _ _ => carriable x | UpdateFw _ _ _ b => image_ok b | _ => True end) ops /\
-    let g := run no_oracles 0 (gw_init cf) ops in
-    In (ESend l) (g_log g) /\ decode l = Some m /\ gvalidate no_oracles g m = false.
+(* ---- the former counterexample of theorem 3 (finding D20, fixed in the library) ---- *)
+(* set_child_value(300, 0, 2, "1") on a 2.2 gateway: node 300 is unknown, but 300 is not a node id
+   (`sensorid in range(BROADCAST_ID + 1)` fails), so is_sensor asks nobody for a presentation:
+   nothing is sent, queued or stored, no exception.  Before the fix the command 300;255;3;0;19;
+   was handed to the transport. *)
+Example ex_set_child_out_of_range_silent :
+  let ops := [SetChild 300 0 (VtInt 2) (PS (s2p "1")) None None] in
+  Forall op_wire ops /\
+  run no_oracles 0 (gw_init cf22) ops = gw_init cf22 /\
+  run no_oracles 0 (gw_init cf22t) ops = gw_init cf22t.
 Proof.
-  exists cf22. exists [SetChild 300 0 (VtInt 2) (PS (s2p "1")) None None].
-  exists (s2p "300;255;3;0;19;" ++ [nl]). exists (mkMsg 300 255 3 0 19 []).
-  split; [exists V22; split; reflexivity|]. split; [constructor; [reflexivity|constructor]|].
-  vm_compute. repeat split; try reflexivity. left. reflexivity.
+  split; [constructor; [reflexivity|constructor]|]. vm_compute. split; reflexivity.
 Qed.
+
+(* ... whereas an unknown node with a valid id is still asked to present itself *)
+Example ex_set_child_unknown_in_range :
+  sends (g_log (run no_oracles 0 (gw_init cf22) [SetChild 200 0 (VtInt 2) (PS (s2p "1")) None None])) =
+  [s2p "200;255;3;0;19;" ++ [nl]].
+Proof. vm_compute. reflexivity. Qed.
+
